@@ -749,6 +749,13 @@ func valueWithinLen(s boundSite, v ssa.Value) (upper, lower bool) {
 	if isLenOf(idx, s.base) {
 		return true, true
 	}
+	// strings.Index*(base, …) is -1 or a byte offset within base
+	if c, ok := idx.(*ssa.Call); ok {
+		if sc := c.Common().StaticCallee(); sc != nil && strings.HasPrefix(sc.RelString(nil), "strings.") && strings.Contains(sc.Name(), "Index") &&
+			len(c.Common().Args) > 0 && sameAccess(c.Common().Args[0], s.base) {
+			upper = true
+		}
+	}
 	for _, b := range fn.Blocks {
 		ifi, ok := b.Instrs[len(b.Instrs)-1].(*ssa.If)
 		if !ok {
